@@ -1494,6 +1494,12 @@ def gen_cli():
         g = fn.body[gi]
         if not (isinstance(g.body[0], ast.Raise)):
             raise TieError("gate does not raise")
+        # the extension is what follows the LAST dot, lower-cased, compared for equality
+        want = ["archive = args.archive", "dotPos = archive.rfind('.')", None, "archiveExtension = archive[dotPos + 1:].lower()"]
+        k = next(i for i, x in enumerate(stmts) if same(x, "archive = args.archive"))
+        if not (same(stmts[k + 1], "dotPos = archive.rfind('.')") and stmts[k + 2].startswith("if dotPos < 0:") and same(stmts[k + 3], "archiveExtension = archive[dotPos + 1:].lower()")
+                and same(g.test, "archiveExtension != self._archiveExtension")):
+            raise TieError("the extension gate is not 'text after the last dot, lower-cased, equal to the expected extension'")
         return "true"
 
     o.item("disk_gate_before_manager", "bool", gate_before_manager)
